@@ -436,7 +436,7 @@ pub fn bitmap_update_body(rects: &[Rect]) -> B {
             b.u16le(&format!("{}.cbCompFirstRowSize", n), 0)
                 .u16le(&format!("{}.cbCompMainBodySize", n), r.data.len() as u16)
                 .u16le(&format!("{}.cbScanWidth", n), r.width.wrapping_mul(r.bpp / 8))
-                .u16le(&format!("{}.cbUncompressedSize", n), (r.width as u32 * r.height as u32 * (r.bpp as u32 / 8)) as u16);
+                .u16le(&format!("{}.cbUncompressedSize", n), (r.width as u32).wrapping_mul(r.height as u32).wrapping_mul(r.bpp as u32 / 8) as u16);
         } else {
             b.u16le(&format!("{}.bitmapLength", n), r.data.len() as u16);
         }
